@@ -59,8 +59,8 @@ def _scope_of_iter(prog: Program, fn: Func, it: ast.AST, env: Dict[str, str]) ->
 def _producer(prog: Program, res: Result) -> None:
     fn = prog.func("main", "format_code")
     safe_if = None
-    for s in fn.node.body:
-        if isinstance(s, ast.If) and norm(s.test) == "safe":
+    for s in walk_own(fn.node):      # wherever it sits: after early returns or nested in their else branches
+        if isinstance(s, ast.If) and norm(s.test) == "safe" and safe_if is None:
             safe_if = s
     if safe_if is None:
         res.bad("R7.3", fn.loc(), fn.fq, "if safe:", "format_code has no safe-mode block: nothing is added to preserve")
